@@ -18,6 +18,7 @@
 // words must be the binary16 decoding of their index (engine/halfref.hpp).
 #include "../engine/halfref.hpp"
 #include "../engine/report.hpp"
+#include <cfenv>
 #include <dlfcn.h>
 #include <fstream>
 
@@ -337,6 +338,52 @@ int main (int argc, char** argv)
         R ().sample ("float 0x33000001 -> " + hx (s1[0], 4) + ", float 0x477fefff -> " + hx (s2[0], 4) + " in " + ref.name);
         if (complete) R ().stage_done ("all 2^32 float patterns x " + std::to_string (cfgs.size ()) + " configurations (C function; C++ constructor where the language is C++) vs " + ref.name);
         else R ().stage_partial (std::to_string (done.load ()) + " of 2^32 float patterns (all configurations on each)");
+    }
+
+    // ---- stage 4: the F16C back-end must round to nearest-even whatever the AMBIENT rounding mode is -------------
+    // (half.h passes an explicit rounding immediate; the software paths are integer code). Every F16C object is swept
+    // over all 2^32 inputs again under fesetround(FE_UPWARD / FE_DOWNWARD / FE_TOWARDZERO), set in the worker thread
+    // around the call only; the reference block is computed under FE_TONEAREST.
+    {
+        std::vector<Cfg*> hw;
+        for (Cfg* c : cfgs) if (c->f16c) hw.push_back (c);
+        if (!hw.empty () && R ().stage ("f16c-ambient-rounding-modes"))
+        {
+            const uint64_t N = 1ull << 32, CH = 1ull << 18;
+            static const int   MODES[3] = {FE_UPWARD, FE_DOWNWARD, FE_TOWARDZERO};
+            static const char* MN[3]    = {"FE_UPWARD", "FE_DOWNWARD", "FE_TOWARDZERO"};
+            std::atomic<long long> tr (0), done (0);
+            bool complete = parallel_chunks (N, CH, [&] (uint64_t lo, uint64_t hi, unsigned) {
+                static thread_local std::vector<uint16_t> rb, b;
+                rb.resize (CH); b.resize (CH);
+                const size_t n = (size_t) (hi - lo);
+                ref.f2h (lo, hi, rb.data ());
+                for (Cfg* c : hw)
+                    for (int m = 0; m < 3; ++m)
+                    {
+                        fesetround (MODES[m]);
+                        c->f2h (lo, hi, b.data ());
+                        fesetround (FE_TONEAREST);
+                        tr += (long long) n;
+                        if (memcmp (b.data (), rb.data (), n * 2) == 0) continue;
+                        long long bad = 0;
+                        const std::string site = "f2h[" + c->name + "].under-" + MN[m] + " != reference";
+                        for (size_t k = 0; k < n; ++k)
+                        {
+                            uint32_t u = (uint32_t) (lo + k);
+                            bool     differs = is_nan32 (u) ? (!is_nan16 (b[k]) || ((b[k] ^ rb[k]) & 0x8000)) : (b[k] != rb[k]);
+                            if (differs && ++bad <= CAP) R ().fail (site, "float " + hx (u, 8), hx (rb[k], 4), hx (b[k], 4));
+                        }
+                        mismatch_total (site, bad);
+                    }
+                done += (long long) n;
+            });
+            R ().add ("transitions", tr.load ());
+            R ().add ("states", tr.load ());
+            R ().cls ("branch.f16c.non-default-ambient-rounding-mode", tr.load ());
+            if (complete) R ().stage_done ("all 2^32 float patterns x " + std::to_string (hw.size ()) + " F16C configurations x {FE_UPWARD, FE_DOWNWARD, FE_TOWARDZERO} vs " + ref.name + " under FE_TONEAREST");
+            else R ().stage_partial (std::to_string (done.load ()) + " of 2^32");
+        }
     }
 
     // ---- outcome classes: comparisons per selected #if branch / language -----------------------
